@@ -111,6 +111,55 @@ def _gate_site(path: Path) -> dict:
     return found[0]
 
 
+def lean_str_lit(x: str) -> str:
+    """A Lean `String` literal."""
+    return '"' + x.replace("\\", "\\\\").replace('"', '\\"').replace("\n", "\\n") + '"'
+
+
+def _kinds(stmts: list[ast.stmt]) -> str:
+    out = []
+    for st in stmts:
+        if isinstance(st, ast.Raise):
+            exc = st.exc.func if isinstance(st.exc, ast.Call) else st.exc
+            out.append("raise " + (ast.unparse(exc) if exc is not None else ""))
+        elif isinstance(st, ast.Return):
+            out.append("return" + (" " + ast.unparse(st.value) if st.value is not None else ""))
+        elif isinstance(st, ast.Assign):
+            out.append("assign " + ",".join(ast.unparse(t) for t in st.targets))
+        else:
+            out.append(type(st).__name__)
+    return "; ".join(out)
+
+
+def _check_skeleton(path: Path) -> list[str]:
+    """Control-flow skeleton of `RpcServer._check_protocol_version`: one entry per top-level statement.
+
+    The hand-written model (Model/C09.lean `check`) transliterates exactly this sequence: missing -> undecodable ->
+    malformed (via parse_version) -> equal major.minor passes -> direction by tuple order.  Any additional exit,
+    reordered step or different comparison shows up here and breaks `C09_paths`."""
+    tree = ast.parse(path.read_text())
+    fn = next(n for n in ast.walk(tree) if isinstance(n, ast.FunctionDef) and n.name == "_check_protocol_version")
+    body = fn.body
+    if body and isinstance(body[0], ast.Expr) and isinstance(body[0].value, ast.Constant) and isinstance(body[0].value.value, str):
+        body = body[1:]
+    out = []
+    for st in body:
+        if isinstance(st, ast.If):
+            e = f"if {ast.unparse(st.test)} => {_kinds(st.body)}"
+            if st.orelse:
+                e += f" | else => {_kinds(st.orelse)}"
+            out.append(e)
+        elif isinstance(st, ast.Try):
+            hs = " | ".join(f"except {ast.unparse(h.type) if h.type is not None else ''} => {_kinds(h.body)}" for h in st.handlers)
+            tail = (" | else" if st.orelse else "") + (" | finally" if st.finalbody else "")
+            out.append(f"try {'; '.join(ast.unparse(x) for x in st.body)} | {hs}{tail}")
+        elif isinstance(st, ast.Assert):
+            out.append("assert")
+        else:
+            out.append(_kinds([st]))
+    return out
+
+
 def emit() -> dict[str, str]:
     import vgi_rpc.metadata as md
 
@@ -124,6 +173,7 @@ def emit() -> dict[str, str]:
             f'  {{ name := "{name}", recognised := {str(bool(s["recognised"] and s["arg_ok"])).lower()}, '
             f'exempt := {lean_str(s["exempt"])} }}'
         )
+    skeleton = _check_skeleton(REPO / "vgi_rpc/rpc/_server.py")
     # zero code point of every run of ten decimal digits that int() accepts
     zeros = []
     for a, b in category_ranges("digit"):
@@ -153,6 +203,11 @@ deriving Repr, DecidableEq
 
 def gateSites : List GateSite := [
 {",\n".join(sites)}
+]
+
+/-- control-flow skeleton of `RpcServer._check_protocol_version` (one entry per top-level statement) -/
+def checkSkeleton : List String := [
+{",\n".join("  " + lean_str_lit(x) for x in skeleton)}
 ]
 
 /-- zero code point of every run of ten Unicode decimal digits accepted by Python `int()` / `\\d` -/
